@@ -14,7 +14,7 @@ BUILT = {
  "C02": dict(
    technique="proptest structured generation + reference enumeration model (multiset equality both ways); thorough: coverage-guided libFuzzer target fz_eval with the same model as oracle",
    category="exploration",
-   text="Generated (flop, 1-6 ranges) configurations - card-pool ranges with frequent player-player blocking, ranges overlapping the flop, identical ranges, sizes 1..1326 including 255/256/257 and >255 beside narrow ranges - are drained and compared as multisets with an independent enumeration of all legal deals: nothing missing, nothing extra, nothing twice; board layout, hole cards per seat and probability are checked per showdown (for <= 4 players the reported f32 must be one of the values some order/association of the multiplications gives, for one player the weight itself; weights include neighbouring f32 values and tiny values). A second stream takes a prefix of configurations far too large to drain (3 ranges of up to 1326 combos, > 2^32 slots): legality, order, first position, count. Sampled; a cost budget bounds what is drained completely.",
+   text="Generated (flop, 1-6 ranges) configurations - card-pool ranges with frequent player-player blocking, ranges overlapping the flop, identical ranges, sizes 1..1326 including 255/256/257 and >255 beside narrow ranges - are drained and compared as multisets with an independent enumeration of all legal deals: nothing missing, nothing extra, nothing twice; board layout, hole cards per seat and probability are checked per showdown (for <= 4 players the reported f32 must be one of the values some order/association of the multiplications gives, for one player the weight itself; weights include neighbouring f32 values and tiny values). A second stream takes a prefix of configurations far too large to drain (3 ranges of up to 1326 combos, > 2^32 slots): legality, order, first position, count. Every drained configuration is also consumed through nth() with mixed step widths and one of skip().step_by(), count()+last(), collect()/for_each(), each compared element by element with the next() sequence; size_hint() is asked before every next(). Sampled; a cost budget bounds what is drained completely.",
    note="Trusted: the harness's enumeration model (evalmodel.rs). Probability for more than 4 players is compared within (n+1) f32 roundings because the statement fixes the value, not the multiplication order. Weights from {0} U [2^-10,1] (down to 2^-24 with <= 4 players).",
    ref="DESIGN.md section 4 (C02)"),
  "C03": dict(
@@ -26,19 +26,19 @@ BUILT = {
  "C04": dict(
    technique="exhaustive enumeration of all (from,to) windows for fixed configurations + proptest model-based histories (scope calls, chains) against the unscoped run and against the enumeration model; thorough: coverage-guided libFuzzer target fz_eval",
    category="exploration",
-   text="For 2 (quick) / 6 (thorough) fixed configurations every one of the 693,253 ordered windows from <= to over the 1177 positions is generated and the scoped run compared, position by position, with the unscoped run's window, with three further next() calls after exhaustion. Generated histories over small random configurations add repeated scope() calls (last wins), windows biased to row edges/terminal/empty, chains of 0-63 cuts whose concatenation must equal the full run, short windows compared directly with the enumeration model restricted to the window, and prefixes of windows over configurations too large to drain (> 2^32 odometer slots).",
+   text="For 2 (quick) / 6 (thorough) fixed configurations every one of the 693,253 ordered windows from <= to over the 1177 positions is generated and the scoped run compared, position by position, with the unscoped run's window, with three further next() calls after exhaustion. Generated histories over small random configurations add repeated scope() calls (last wins), windows biased to row edges/terminal/empty, chains of 0-63 cuts whose concatenation must equal the full run, short windows compared directly with the enumeration model restricted to the window, and prefixes of windows over configurations too large to drain (> 2^32 odometer slots). The scoped runs of the histories are also consumed through nth()/skip()/step_by()/count()/last()/collect() and compared with their next() sequence.",
    note="Trusted: the unscoped run of the same build as reference (C02 decides that it is the right enumeration); 64-bit showdown fingerprints. Only valid positions with from <= to are generated.",
    ref="DESIGN.md section 4 (C04)"),
  "C05": dict(
    technique="exhaustive enumeration of all 3,796 well-formed tokens x weight literals + proptest token lists, differential against an independent notation model",
    category="exploration",
-   text="Every well-formed token (all ranks, rank pairs in either order, spans, ordered card pairs) x 4 (quick) / 14 (thorough) weight literals must parse and expand to exactly the combo set the model derives from the poker meaning of the notation, each combo once, at the literal's value; generated lists of 0-12/40 tokens over a small rank palette (frequent overlaps with different weights), optional spaces, the empty and all-space strings, lists of up to 320 tokens and lists that first cover all 1326 combos and then override parts must parse to the model's sequential-insert map with bit-identical weights and one entry per combo.",
+   text="Every well-formed token (all ranks, rank pairs in either order, spans, ordered card pairs) x 8 (quick) / 19 (thorough) weight literals - among them literals a hair off the midpoint of two neighbouring f32 values - must parse and expand to exactly the combo set the model derives from the poker meaning of the notation, each combo once, at the literal's value; generated lists of 0-12/40 tokens over a small rank palette (frequent overlaps with different weights), optional spaces, the empty and all-space strings, lists of up to 320 tokens and lists that first cover all 1326 combos and then override parts must parse to the model's sequential-insert map with bit-identical weights and one entry per combo. Generated literals include exact f32 midpoints moved a hair up or down (45-50 digits).",
    note="Trusted: the harness's token AST/expander (notation.rs) and std's f32 parser for literal values. Lists are sampled.",
    ref="DESIGN.md section 4 (C05)"),
  "C06": dict(
    technique="proptest row-pattern generation + exhaustive row sweeps + exhaustive token set, round-trip oracle (format -> parse, bit-identical)",
    category="exploration",
-   text="Ranges built by row-pattern construction over the 169 rank-pair cells (complete at up to three weights, partial cells, weights incl. arbitrary f32 bit patterns in [0,1] and subnormals), every absent/a/b pattern of every row with <= 7 cells (thorough: every row, 3.2M ranges), and every well-formed token x weights are formatted and parsed back; the result must be equal with bit-identical weights.",
+   text="Ranges built by row-pattern construction over the 169 rank-pair cells (complete at up to three weights, partial cells, weights incl. arbitrary f32 bit patterns in [0,1] and subnormals), every absent/a/b pattern of every row with <= 7 cells (thorough: every row, 3.2M ranges), and every well-formed token x weights are formatted and parsed back; the result must be equal with bit-identical weights. In two of three cases a formatting call of another range into a sink that fails after a few bytes precedes on the same thread.",
    note="-0.0 and NaN are outside the weight domain. The 2^1326 space is sampled except for the row sweeps.",
    ref="DESIGN.md section 4 (C06)"),
  "C07": dict(
@@ -50,13 +50,13 @@ BUILT = {
  "C08": dict(
    technique="proptest structured generation + child-process execution on a 2 MiB thread in two build profiles (crash/panic/over-production oracle)",
    category="exploration",
-   text="Generated configurations aimed at the failure modes the statement names (longest blocked runs inside a window, sizes 0/1/255/256/257/511/512/513/1326, empty ranges at any seat also beside ranges whose sizes multiply past 2^32/2^64, all-blocked ranges, 7-300 players, full drains) are drained in a child process on a 2 MiB thread, once in a release and once in a debug-profile build of espada; any panic, signal (stack overflow), over-production, or output with an empty range is a violation.",
+   text="Generated configurations aimed at the failure modes the statement names (longest blocked runs inside a window, sizes 0/1/255/256/257/511/512/513/1326, empty ranges at any seat also beside ranges whose sizes multiply past 2^32/2^64, all-blocked ranges, 7-300 players, full drains) are drained in a child process on a 2 MiB thread, once in a release and once in a debug-profile build of espada; any panic, signal (stack overflow), over-production, or output with an empty range is a violation. The child consumes the iterator in one of four ways chosen by the configuration (for loop, size_hint() before every next(), collect(), nth() with steps 0-3); full tables of 6-12 ranges of 100-1000 combos (size product beyond 2^64, no empty seat) are asked for size_hint() and their first five showdowns.",
    note="Trusted: the OS reporting the child's death; an infinite silent loop can only hit the watchdog (exit 2). Debug profile = espada at opt-level 0 with overflow checks and debug assertions, dependencies optimised.",
    ref="DESIGN.md section 4 (C08)"),
  "C09": dict(
    technique="exhaustive short-string and token-shape enumeration + proptest mutation/junk/over-long generators, crash oracle (catch_unwind) with follow-up use of every parsed value",
    category="exploration",
-   text="Every string of length <= 3 (thorough 4) over the notation alphabet extended by 2-, 3- and 4-byte characters, every string matching one of the seven token shapes with arbitrary ranks (and all 52x52 card-pair texts), plus generated mutated notation, mixed junk lists, every single/double substitution of a notation character by a Unicode look-alike (digits of other scripts, full-width forms, Kelvin sign, long s), arbitrary Unicode, weight literals and over-long inputs (lengths around powers of two) go through all six parsers under catch_unwind; every Ok value is formatted, expanded, decomposed and drained through the evaluator (to the very end, beside other players, at non-adjacent seats). Any panic is a violation. A libFuzzer target with the same oracle extends the thorough tier.",
+   text="Every string of length <= 3 (thorough 4) over the notation alphabet extended by 2-, 3- and 4-byte characters, every string matching one of the seven token shapes with arbitrary ranks (and all 52x52 card-pair texts), plus generated mutated notation, mixed junk lists, every single/double substitution of a notation character by a Unicode look-alike (digits of other scripts, full-width forms, Kelvin sign, long s), arbitrary Unicode, weight literals and over-long inputs (lengths around powers of two) go through all six parsers under catch_unwind; every Ok value is formatted, expanded, decomposed and drained through the evaluator (to the very end, beside other players, at non-adjacent seats). size_hint() is asked before, during and after every drain, and a full table of ten and of six copies of each parsed range is built and asked for its size hint. Any panic is a violation. A libFuzzer target with the same oracle extends the thorough tier.",
    note="Totality over all strings cannot be established by testing; the finite slices named by the property are covered completely. Evaluator hand-off is restricted to the first positions (cost).",
    ref="DESIGN.md section 4 (C09)"),
  "C10": dict(
@@ -74,7 +74,7 @@ BUILT = {
  "C12": dict(
    technique="exhaustive pattern enumeration inside one rank pair + proptest almost-complete patterns, differential against a split model",
    category="exploration",
-   text="Every absent/weight-a/weight-b pattern of the combos of a rank pair - all 3^6 x 13 pockets, 3^4 x 78 suited, 3^12 x 6 (quick) / 78 (thorough) offsuit - in a background of neighbouring rank pairs (also with +0.0/-0.0 as the two weights), biased almost-complete offsuit patterns over all 78 pairs with arbitrary weights, and row-pattern ranges: rank_pairs() must equal the model's complete cells in both directions with bit-equal weights, orphan_card_pairs() the model's leftovers, and every combo be covered exactly once.",
+   text="Every absent/weight-a/weight-b pattern of the combos of a rank pair - all 3^6 x 13 pockets, 3^4 x 78 suited, 3^12 x 6 (quick) / 78 (thorough) offsuit - in a background of neighbouring rank pairs (also with +0.0/-0.0 as the two weights), biased almost-complete offsuit patterns over all 78 pairs with arbitrary weights, and row-pattern ranges: rank_pairs() must equal the model's complete cells in both directions with bit-equal weights, orphan_card_pairs() the model's leftovers, and every combo be covered exactly once. Long per-thread histories (a rank pair queried complete, about 240 or about 65,510 unrelated queries, then 48 queries of the pair with one combo missing) cover dependence on earlier calls, including wrap points of 8- and 16-bit call counters.",
    note="Trusted: the harness's cell/split model. Weights finite and non-negative; -0.0 is the same weight as +0.0 (f32 equality).",
    ref="DESIGN.md section 4 (C12)"),
  "C13": dict(
@@ -92,7 +92,7 @@ BUILT = {
  "C15": dict(
    technique="proptest model-based interleaving histories on one thread + sampled thread schedules and iterator hand-over in an isolated binary with compile-time Send/Sync assertions",
    category="exploration",
-   text="Generated schedules of next() calls over 1-6 live evaluators (identical ones, same inputs with different scopes, bursts, finish-then-resume, dropping an iterator mid-run and starting a fresh one) must give every evaluator exactly the sequence it gives alone; this is deterministic, shrinks and replays. Thread rounds (1-19 evaluators behind a barrier, moved evaluators, Arc-shared ranges, showdowns sent through channels, iterators handed over mid-run to a thread that interleaves them with its own evaluator, 4-16 simultaneous long drains) sample OS schedules. Send+Sync for the public types is asserted at compile time in the isolated binary; a compile failure there is reported as a violation.",
+   text="Generated schedules of next() calls over 1-6 live evaluators (identical ones, same inputs with different scopes, bursts, finish-then-resume, dropping an iterator mid-run and starting a fresh one) must give every evaluator exactly the sequence it gives alone; this is deterministic, shrinks and replays. Thread rounds (1-19 evaluators behind a barrier, moved evaluators, Arc-shared ranges, showdowns sent through channels, iterators handed over mid-run to a thread that interleaves them with its own evaluator, 4-16 simultaneous long drains) sample OS schedules. Schedules also build evaluators with an invalid board (fourth card, duplicate flop card, two cards) under catch_unwind and batches of about 250 or 65,500 short-lived evaluators, after which the case's evaluators are restarted. Send+Sync for the public types is asserted at compile time in the isolated binary; a compile failure there is reported as a violation.",
    note="OS schedules are sampled, not controlled (the crate has no synchronisation to instrument). Sequence equality relies on deterministic HashMap iteration for identically constructed ranges (FxHash, no random state).",
    ref="DESIGN.md section 4 (C15)"),
  "C16": dict(
@@ -104,7 +104,7 @@ BUILT = {
  "C17": dict(
    technique="proptest model-based construction histories + exhaustive row sweeps, canonical-form oracle (history independence + maximal-run structure via an independent tokenizer)",
    category="exploration",
-   text="For generated target ranges 5-7 construction histories (permuted insertion, overwritten wrong weights, duplicates, capacity-changing repeats, parse of own text, parse of a shuffled non-canonical text with a superseded token, collection from bare pairs) must give equal ranges and byte-identical text; the text is read by the model's tokenizer and its rank-pair tokens must correspond one-to-one, in row order, to the model's maximal equal-weight runs, followed by single-combo tokens whose set equals the leftovers.",
+   text="For generated target ranges 5-7 construction histories (permuted insertion, overwritten wrong weights, duplicates, capacity-changing repeats, parse of own text, parse of a shuffled non-canonical text with a superseded token, collection from bare pairs) must give equal ranges and byte-identical text; the text is read by the model's tokenizer and its rank-pair tokens must correspond one-to-one, in row order, to the model's maximal equal-weight runs, followed by single-combo tokens whose set equals the leftovers. Formatting calls cut short by a failing sink precede some of the compared histories.",
    note="Duplicate leftover tokens for partial pocket pairs are tolerated (pinned by a repository test). Histories are sampled.",
    ref="DESIGN.md section 4 (C17)"),
 }
